@@ -80,6 +80,20 @@ func (p c01Pacer) schedule(t int64) float64 {
 	panic("bad kind")
 }
 
+// sineAhead returns S(t) - n for the sine pacer without the cancellation of two huge numbers: the mean part
+// Freq*t/Per - n is formed exactly (integers), the wave part is of the order of the hits in one period and comes
+// from the phase reduced with integer arithmetic. Good to far below a thousandth of a hit at any depth.
+func (p c01Pacer) sineAhead(t int64, n uint64) float64 {
+	num := new(big.Int).Mul(big.NewInt(int64(p.Freq)), big.NewInt(t))
+	num.Sub(num, new(big.Int).Mul(new(big.Int).SetUint64(n), big.NewInt(p.Per)))
+	mean, _ := new(big.Rat).SetFrac(num, big.NewInt(p.Per)).Float64()
+	a := float64(p.AmpFreq) / float64(p.AmpPer)
+	per := float64(p.Period)
+	frac := float64(t%p.Period) / per
+	o := p.startAt()
+	return mean + (a*per/(2*math.Pi))*(math.Cos(o)-math.Cos(o+2*math.Pi*frac))
+}
+
 // declared instantaneous rate in hits per second
 func (p c01Pacer) rate(t int64) float64 {
 	switch p.Kind {
@@ -348,6 +362,9 @@ type c01Traj struct {
 	Steps     int
 	Stalls    []c01Stall
 	StartHits uint64 // constant pacer only: the loop starts on schedule after this many hits (instant StartHits*interval)
+	// sine pacer only: the loop starts on schedule at this instant, days into the attack, with the hit count the
+	// schedule has reached by then; all comparisons are then made with sineAhead
+	StartNS int64 `json:",omitempty"`
 }
 
 type c01Outcome struct {
@@ -380,6 +397,24 @@ func simC01(c c01Traj) (c01Outcome, error) {
 		iv := c.P.Per / int64(c.P.Freq)
 		if iv > 0 && c.StartHits < uint64(c01MaxNow/iv) {
 			k, now = c.StartHits, int64(c.StartHits)*iv
+		}
+	}
+	deep := c.P.Kind == "sine" && c.StartNS > 0
+	if deep {
+		if c.StartNS > 1<<61 {
+			return out, fmt.Errorf("bad case")
+		}
+		now = c.StartNS
+		est := c.P.schedule(now)
+		if est < 1 || est > 1e15 {
+			return out, fmt.Errorf("bad case")
+		}
+		k = uint64(est)
+		for c.P.sineAhead(now, k) < 0 { // the float estimate may be off by a few hits down there
+			k--
+		}
+		for c.P.sineAhead(now, k) >= 1 {
+			k++
 		}
 	}
 	k0 := k
@@ -422,6 +457,10 @@ func simC01(c c01Traj) (c01Outcome, error) {
 			if w > 0 && schedCmp(now, k, 1) >= 0 {
 				return out, fmt.Errorf("%s step %d: Pace(%d, %d) = %s although the attacker is behind: S(now) >= hits+1 (exact)", c.P, step, now, k, w)
 			}
+		} else if deep {
+			if d := c.P.sineAhead(now, k); w > 0 && d >= 1+1e-2 {
+				return out, fmt.Errorf("%s step %d: Pace(%d, %d) = %s although the attacker is behind: S(now) - hits = %.4f >= 1", c.P, step, now, k, w, d)
+			}
 		} else if w > 0 && sNow >= float64(k)+1+eps(sNow) {
 			return out, fmt.Errorf("%s step %d: Pace(%d, %d) = %s although the attacker is behind: S(now)=%.4f >= hits+1", c.P, step, now, k, w, sNow)
 		}
@@ -439,6 +478,9 @@ func simC01(c c01Traj) (c01Outcome, error) {
 			r += int64(w)
 		}
 		q := int64(k + 1) // one nanosecond of quantisation per hit interval
+		if deep {
+			q = int64(k-k0) + 3
+		}
 		// P1: the count after the release exceeds the schedule by at most one hit
 		// (linear and sine pacers derive every wait from the absolute schedule, so their rounding does not add up:
 		// two nanoseconds of grace in all, not one per hit)
@@ -455,6 +497,10 @@ func simC01(c c01Traj) (c01Outcome, error) {
 			if schedCmp(r+qq, k, 0) < 0 { // k+1 > S(r+qq)+1
 				return out, fmt.Errorf("%s step %d: hit %d released at %d ns (Pace(%d, %d) = %s) but S(%d ns) < %d (exact): count exceeds the schedule by more than one hit", c.P, step, k+1, r, now, k, w, r+q, k)
 			}
+		} else if deep {
+			if d := -c.P.sineAhead(r+2, k+1); d > 1+1e-2 {
+				return out, fmt.Errorf("%s step %d (loop entered at %d ns): hit %d released at %d ns (Pace(%d, %d) = %s): count exceeds the schedule by %.4f hits (> 1)", c.P, step, c.StartNS, k+1, r, now, k, w, d)
+			}
 		} else if float64(k+1) > sR+1+eps(sR) {
 			return out, fmt.Errorf("%s step %d: hit %d released at %d ns (Pace(%d, %d) = %s) but S(%d ns) = %.4f: count exceeds the schedule by %.4f hits (> 1)", c.P, step, k+1, r, now, k, w, r+2, sR, float64(k+1)-sR)
 		}
@@ -465,6 +511,10 @@ func simC01(c c01Traj) (c01Outcome, error) {
 			if exact {
 				if r-q > 0 && schedCmp(r-q, k, 1) > 0 { // S(r-q) - k > 1
 					return out, fmt.Errorf("%s step %d: hit %d released at %d ns (Pace(%d, %d) = %s) but S(%d ns) > %d (exact): count is more than one hit behind the schedule", c.P, step, k+1, r, now, k, w, r-q, k+1)
+				}
+			} else if deep {
+				if d := c.P.sineAhead(r-q, k); d > 1+1e-2 {
+					return out, fmt.Errorf("%s step %d (loop entered at %d ns): hit %d released at %d ns (Pace(%d, %d) = %s): count is %.4f hits behind the schedule (> 1)", c.P, step, c.StartNS, k+1, r, now, k, w, d)
 				}
 			} else if sB-float64(k) > 1+eps(sB) {
 				return out, fmt.Errorf("%s step %d: hit %d released at %d ns (Pace(%d, %d) = %s) but S(%d ns) = %.4f: count is %.4f hits behind the schedule (> 1)", c.P, step, k+1, r, now, k, w, r-q, sB, sB-float64(k))
@@ -547,8 +597,19 @@ func c01GenTraj(t *rapid.T) c01Traj {
 	case "sine":
 		c.P.Period = int64(c01LogUniform(t, "period", 1e6, 86400e9))
 		meanRate = c01LogUniform(t, "mean", 1e-3, 1e6)
+		lateStart := rapid.IntRange(0, 3).Draw(t, "sine-late-start") == 0
+		if lateStart && rapid.Bool().Draw(t, "fewperperiod") {
+			// a wave with only a few hits per period: the rate changes a lot within one hit interval
+			c.P.Period = int64(c01LogUniform(t, "shortperiod", 1e6, 3600e9))
+			meanRate = math.Min(1e6, math.Max(1e-3, c01LogUniform(t, "hitsperperiod", 0.3, 30)/float64(c.P.Period)*1e9))
+		}
 		c.P.Freq, c.P.Per = c01RateAs(t, "meanas", meanRate)
 		meanRate = float64(c.P.Freq) / float64(c.P.Per) * 1e9
+		if lateStart { // days, weeks, years into the attack: 1e7..1e11 hits so far
+			if ns := c01LogUniform(t, "hitssofar", 1e7, 1e11) / (float64(c.P.Freq) / float64(c.P.Per)); ns < 2e18 {
+				c.StartNS = int64(ns)
+			}
+		}
 		var ratio float64
 		switch rapid.IntRange(0, 2).Draw(t, "ampk") {
 		case 0:
@@ -649,7 +710,7 @@ func TestC01Trajectory(t *testing.T) {
 		if c.P.Kind == "linear" && c.P.slope() < 0 {
 			labels = append(labels, "negative-slope")
 		}
-		if c.StartHits > 0 {
+		if c.StartHits > 0 || c.StartNS > 0 {
 			labels = append(labels, "late-start")
 		}
 		if c.P.Kind == "sine" && float64(c.P.AmpFreq)/float64(c.P.AmpPer) >= 0.9*float64(c.P.Freq)/float64(c.P.Per) {
